@@ -80,7 +80,7 @@ fn check_token_head(b0: u8) {
 macro_rules! for_bytes {
     ($f:ident; $($b:literal)+) => { $( $f($b); )+ }
 }
-// @harness name=c11_token_decode_heads tier=thorough note="Token::decode over a fully symbolic head: tens of minutes" props=C11,C04,C02,C20 kind=complete features=half
+// @harness name=c11_token_decode_heads tier=manual note="Token::decode over a fully symbolic head: tens of minutes" props=C11,C04,C02,C20 kind=complete features=half
 #[cfg(feature = "half")]
 #[kani::proof]
 #[kani::stub(core::str::from_utf8, crate::kani_refspec_stubs::from_utf8_any)]
@@ -119,12 +119,12 @@ fn check_token_string(b0: u8) {
         Err(e) => { assert!(major == 3 && core::str::from_utf8(payload).is_err()); assert!(e.kani_is_utf8()) }
     }
 }
-// @harness name=c11_strings_bytes tier=thorough props=C11,C04,C02 kind=bounded features=half bound="payload <= 4 bytes, every head width"
+// @harness name=c11_strings_bytes tier=manual props=C11,C04,C02 kind=bounded features=half bound="payload <= 4 bytes, every head width"
 #[cfg(feature = "half")]
 #[kani::proof]
 #[kani::unwind(8)]
 fn c11_strings_bytes() { for_bytes!(check_token_string; 0x40 0x41 0x42 0x43 0x44 0x58 0x59 0x5a 0x5b); kani::cover!(true); }
-// @harness name=c11_strings_text tier=thorough props=C11,C04,C02 kind=bounded features=half bound="payload <= 4 bytes (every UTF-8 sequence form), every head width"
+// @harness name=c11_strings_text tier=manual props=C11,C04,C02 kind=bounded features=half bound="payload <= 4 bytes (every UTF-8 sequence form), every head width"
 #[cfg(feature = "half")]
 #[kani::proof]
 #[kani::unwind(8)]
@@ -164,7 +164,7 @@ fn check_reencode(b0: u8) {
         assert!(m == wn && prefix_eq(&out[..], &want, wn));                   // preferred form of the same item
     }
 }
-// @harness name=c11_reencode_heads tier=thorough note="Token::decode over a fully symbolic head: tens of minutes" props=C11,C07,C03,C20 kind=complete features=half
+// @harness name=c11_reencode_heads tier=manual note="Token::decode over a fully symbolic head: tens of minutes" props=C11,C07,C03,C20 kind=complete features=half
 #[cfg(feature = "half")]
 #[kani::proof]
 #[kani::stub(core::str::from_utf8, crate::kani_refspec_stubs::from_utf8_any)]
@@ -198,7 +198,7 @@ fn c11_reencode_f16() {
     kani::cover!(nan);
 }
 
-// @harness name=c11_token_encode_values tier=thorough note="Token::decode over a fully symbolic head: tens of minutes" props=C11,C03,C07,C01 kind=complete features=half
+// @harness name=c11_token_encode_values tier=manual note="Token::decode over a fully symbolic head: tens of minutes" props=C11,C03,C07,C01 kind=complete features=half
 // every integer token encodes to the preferred serialisation of its numeric value, with exact length
 #[cfg(feature = "half")]
 #[kani::proof]
@@ -282,7 +282,7 @@ fn check_step(b0: u8) {
         None => assert!(after == n),
     }
 }
-// @harness name=c11_tokenizer_step tier=thorough note="Token::decode over a fully symbolic head: tens of minutes" props=C11,C02,C20 kind=complete features=half
+// @harness name=c11_tokenizer_step tier=manual note="Token::decode over a fully symbolic head: tens of minutes" props=C11,C02,C20 kind=complete features=half
 #[cfg(feature = "half")]
 #[kani::proof]
 #[kani::stub(core::str::from_utf8, crate::kani_refspec_stubs::from_utf8_any)]
@@ -293,7 +293,7 @@ fn c11_tokenizer_step() {
     kani::cover!(true);
 }
 
-// @harness name=c11_step_strings tier=thorough props=C11,C02 kind=bounded features=half bound="string heads with immediate length <= 11 (buffer of 12 bytes), UTF-8 validation unwound 14 times"
+// @harness name=c11_step_strings tier=manual props=C11,C02 kind=bounded features=half bound="string heads with immediate length <= 11 (buffer of 12 bytes), UTF-8 validation unwound 14 times"
 #[cfg(feature = "half")]
 #[kani::proof]
 #[kani::unwind(14)]
